@@ -1,4 +1,5 @@
 import RsMatterVerif.Lemmas.Transport
+import RsMatterVerif.Lemmas.Rendezvous
 /-!
 # C20 — unfinished or hostile handshakes cannot leak or exhaust node resources for good
 
@@ -289,17 +290,246 @@ theorem owner_drop_frees_or_marks (s : Sess) (i : Nat) (e : Exch) (hs : s.slot i
   · left
     rw [slot_set]; simp [hlt]
 
-/-! ## Rendezvous -/
+/-! ## Rendezvous slots (mDNS resolve / browse) — over all histories of `Model/Rendezvous.lean`
 
-/-- the single-slot mDNS resolve / browse rendezvous -/
-inductive Rdv | idle | requested | inFlight | resolved
-deriving DecidableEq, Repr
+`Rendezvous.run Rendezvous.init ops` is the state after the history `ops` (arrivals of callers,
+placements, responder pick-ups and deposits, consumption, cancellations and time-outs in any order and
+any number). The invariant `Rendezvous.Inv` (slot occupied ⇔ exactly one waiter is placed, and it is
+the ghost owner) is proved by induction over the history in `Lemmas/Rendezvous.lean`. -/
 
-/-- `MdnsResolveGuard::drop` / `MdnsBrowseGuard::drop`: unless disarmed, reset to `Idle` -/
-def guardDrop (armed : Bool) (st : Rdv) : Rdv := if armed then .idle else st
+open Rendezvous in
+/-- at most one caller ever holds an armed guard -/
+theorem rendezvous_single_occupancy (ops : List Op) : (run init ops).placed.length ≤ 1 := by
+  have h := inv_reach ops
+  by_cases hs : (run init ops).slot = .idle
+  · rw [(h.1 hs).1]; exact Nat.zero_le _
+  · obtain ⟨w, _, hp⟩ := h.2 hs
+    rw [hp]; exact Nat.le_refl _
 
-/-- **Rendezvous released on cancel**: whatever state the rendezvous was in when the waiting future is
-dropped (cancelled or timed out) with its guard still armed, the slot is idle afterwards. -/
-theorem rendezvous_released_on_cancel (st : Rdv) : guardDrop true st = .idle := rfl
+open Rendezvous in
+/-- a placed waiter is the owner of the request in the slot, and the slot is occupied -/
+theorem placed_is_owner (ops : List Op) (w : Nat) (hw : w ∈ (run init ops).placed) :
+    (run init ops).owner = some w ∧ (run init ops).placed = [w] ∧ (run init ops).slot ≠ .idle := by
+  have h := inv_reach ops
+  by_cases hs : (run init ops).slot = .idle
+  · rw [(h.1 hs).1] at hw; cases hw
+  · obtain ⟨v, ho, hp⟩ := h.2 hs
+    rw [hp] at hw
+    have : w = v := by simpa using hw
+    subst this
+    exact ⟨ho, hp, hs⟩
+
+open Rendezvous in
+theorem dropWaiter_placed (st : St) (w : Nat) (hp : st.placed = [w]) :
+    (dropWaiter st w).slot = .idle ∧ (dropWaiter st w).placed = [] ∧ (dropWaiter st w).queued = st.queued := by
+  unfold dropWaiter
+  have hc : st.placed.contains w = true := by rw [hp]; simp
+  rw [if_pos hc]
+  refine ⟨?_, by simp [hp], rfl⟩
+  show guardDropSlot st.slot = .idle
+  unfold guardDropSlot; split <;> rfl
+
+open Rendezvous in
+/-- **Rendezvous released on cancel / time-out** (run level): after ANY history, when the future of
+the placed waiter is dropped — cancelled by its caller or because its own timer fired — the slot is
+`Idle`, no waiter is placed any more, the queue is untouched, and the request that was discarded is
+the waiter's own (the guard never resets somebody else's request). -/
+theorem rendezvous_released_on_cancel (ops : List Op) (w : Nat) (hw : w ∈ (run init ops).placed) :
+    (run init (ops ++ [.cancel w])).slot = .idle ∧ (run init (ops ++ [.cancel w])).placed = [] ∧
+    (run init (ops ++ [.timeout w])).slot = .idle ∧ (run init (ops ++ [.timeout w])).placed = [] ∧
+    (run init ops).owner = some w := by
+  obtain ⟨ho, hp, _⟩ := placed_is_owner ops w hw
+  have hd := dropWaiter_placed _ w hp
+  have hrun : ∀ o, run init (ops ++ [o]) = step (run init ops) o := fun o => run_append ops [o] init
+  rw [hrun, hrun]
+  have hc : (run init ops).placed.contains w = true := by rw [hp]; simp
+  simp only [step, timeoutWaiter, hc, ↓reduceIte]
+  exact ⟨hd.1, hd.2.1, hd.1, hd.2.1, ho⟩
+
+open Rendezvous in
+/-- cancelling a caller that is still queued (it has no guard yet) does not touch the slot -/
+theorem queued_cancel_keeps_slot (st : St) (w : Nat) (hq : st.placed.contains w = false) :
+    (step st (.cancel w)).slot = st.slot ∧ (step st (.cancel w)).placed = st.placed := by
+  simp only [step, dropWaiter, hq, Bool.false_eq_true, ↓reduceIte]
+  split <;> exact ⟨rfl, rfl⟩
+
+open Rendezvous in
+/-- **No waiter ⇒ idle**: in every reachable state in which no caller holds a guard the slot is
+`Idle` — whatever the responder did (pick-ups, deposits for requests long abandoned) and however the
+earlier waiters ended. -/
+theorem rendezvous_idle_when_no_waiter (ops : List Op) (h : (run init ops).placed = []) :
+    (run init ops).slot = .idle ∧ (run init ops).owner = none := by
+  have hi := inv_reach ops
+  by_cases hs : (run init ops).slot = .idle
+  · exact ⟨hs, (hi.1 hs).2⟩
+  · obtain ⟨w, _, hp⟩ := hi.2 hs
+    rw [hp] at h; cases h
+
+open Rendezvous in
+/-- a queued caller places its request as soon as no waiter is placed -/
+theorem queued_places_when_free (ops : List Op) (v : Nat) (hfree : (run init ops).placed = [])
+    (hv : v ∈ (run init ops).queued) :
+    (step (run init ops) (.place v)).slot = .requested ∧ (step (run init ops) (.place v)).owner = some v ∧
+    (step (run init ops) (.place v)).placed = [v] := by
+  have hs := (rendezvous_idle_when_no_waiter ops hfree).1
+  have hc : (run init ops).queued.contains v = true := by simpa using hv
+  simp [step, place, hv, hs, hfree]
+
+open Rendezvous in
+/-- **the next caller gets the slot**: after any history, once the placed waiter is cancelled (or
+timed out) any queued caller places its request -/
+theorem queued_places_after_cancel (ops : List Op) (w v : Nat) (hw : w ∈ (run init ops).placed)
+    (hv : v ∈ (run init ops).queued) :
+    (run init (ops ++ [.cancel w, .place v])).slot = .requested ∧
+    (run init (ops ++ [.cancel w, .place v])).owner = some v ∧
+    (run init (ops ++ [.cancel w, .place v])).placed = [v] := by
+  obtain ⟨_, hp, _⟩ := placed_is_owner ops w hw
+  have h1 : run init (ops ++ [.cancel w]) = step (run init ops) (.cancel w) := run_append ops _ init
+  have hfree : (run init (ops ++ [.cancel w])).placed = [] := by
+    rw [h1]; exact (dropWaiter_placed _ w hp).2.1
+  have hq : v ∈ (run init (ops ++ [.cancel w])).queued := by
+    rw [h1]; show v ∈ (dropWaiter _ w).queued
+    rw [(dropWaiter_placed _ w hp).2.2]; exact hv
+  have := queued_places_when_free (ops ++ [.cancel w]) v hfree hq
+  have h2 : run init (ops ++ [.cancel w, .place v]) = step (run init (ops ++ [.cancel w])) (.place v) := by
+    have : ops ++ [Op.cancel w, Op.place v] = (ops ++ [.cancel w]) ++ [.place v] := by simp
+    rw [this]
+    exact run_append _ _ init
+  rw [h2]; exact this
+
+/-- non-vacuity on a concrete history: two callers, the first places, the responder picks the request
+up and deposits; the second stays queued while the first holds the slot (its `place` is refused); the
+first is cancelled before consuming: the slot is idle, the second places. -/
+def exHist : List Rendezvous.Op := [.arrive 1, .arrive 2, .place 1, .place 2, .pickup, .deposit]
+
+example :
+    (Rendezvous.run Rendezvous.init exHist).slot = .resolved ∧
+    (Rendezvous.run Rendezvous.init exHist).placed = [1] ∧
+    (Rendezvous.run Rendezvous.init exHist).queued = [2] ∧
+    (Rendezvous.run Rendezvous.init (exHist ++ [.cancel 1])).slot = .idle ∧
+    (Rendezvous.run Rendezvous.init (exHist ++ [.cancel 1, .place 2])).slot = .requested ∧
+    (Rendezvous.run Rendezvous.init (exHist ++ [.cancel 1, .place 2])).owner = some 2 ∧
+    (Rendezvous.run Rendezvous.init (exHist ++ [.consume 1])).slot = .idle ∧
+    -- a queued caller's cancellation leaves the request of the placed one alone
+    (Rendezvous.run Rendezvous.init (exHist ++ [.cancel 2])).slot = .resolved ∧
+    -- a deposit for a request that was abandoned meanwhile is a no-op
+    (Rendezvous.run Rendezvous.init [.arrive 1, .place 1, .pickup, .timeout 1, .deposit]).slot = .idle := by
+  decide
+
+/-! ## The PASE in-progress marker — over all histories of `Model/Rendezvous.lean`
+
+`Rendezvous.prun Rendezvous.pinit ops`: any sequence of `update_session_timeout` calls of any
+exchanges, `clear_session_timeout`, `record_pake_failure`, handler futures dropped by the executor
+(which leaves the marker as it is) and time steps. -/
+
+open Rendezvous in
+/-- in every reachable state the marker expires at most one life time (60 s) from now -/
+theorem marker_expiry_bounded (ops : List POp) (k : Marker) (h : (prun pinit ops).marker = some k) :
+    k.expiry ≤ (prun pinit ops).now + paseTimeoutMs :=
+  pinv_run ops pinit pinv_init k h
+
+open Rendezvous in
+/-- **A dead owner's marker goes stale**: after any history, if during a further segment of more than
+60 s the exchange `ex0` performs no `update_session_timeout` (its handler was dropped, or it ended),
+then no marker owned by `ex0` is live at the end of the segment — whatever else happened meanwhile. -/
+theorem dead_owner_marker_not_live (ops seg : List POp) (ex0 : Nat)
+    (hdead : ∀ o ∈ seg, o.isUpdateOf ex0 = false) (hlong : elapsed seg ≥ paseTimeoutMs + 1)
+    (k : Marker) (hk : (prun pinit (ops ++ seg)).marker = some k) (hown : k.owner = ex0) :
+    k.expired (prun pinit (ops ++ seg)).now = true := by
+  rw [prun_append] at hk ⊢
+  have h0 : OwnedBelow ex0 ((prun pinit ops).now + paseTimeoutMs) (prun pinit ops) :=
+    fun k hk _ => pinv_run ops pinit pinv_init k hk
+  have h1 := ownedBelow_run ex0 _ seg _ hdead h0 k hk hown
+  have hn := now_run seg (prun pinit ops)
+  simp only [Marker.expired, decide_eq_true_eq]
+  omega
+
+open Rendezvous in
+/-- **An expired marker of a dead owner is cleared by the next initiator**: under the hypotheses of
+`dead_owner_marker_not_live`, a `PBKDFParamRequest` of ANY exchange `ex` (`update ex true`) is refused
+with `Busy` only because of a live marker of a third exchange that is neither `ex` nor the dead one —
+never because of the dead one's marker. (False for the seeded variant C20-b, see `updateBusyFirst`.) -/
+theorem expired_marker_of_dead_owner_is_cleared (ops seg : List POp) (ex0 ex : Nat)
+    (hdead : ∀ o ∈ seg, o.isUpdateOf ex0 = false) (hlong : elapsed seg ≥ paseTimeoutMs + 1)
+    (hbusy : (update (prun pinit (ops ++ seg)) ex true).2 = .busy) :
+    ∃ k, (prun pinit (ops ++ seg)).marker = some k ∧ k.owner ≠ ex0 ∧ k.owner ≠ ex ∧
+      k.expired (prun pinit (ops ++ seg)).now = false := by
+  generalize hst : prun pinit (ops ++ seg) = st at hbusy
+  unfold update decide2 at hbusy
+  simp only at hbusy
+  split at hbusy
+  · rename_i k hc
+    obtain ⟨hm, hx⟩ := clearIfExpired_sub _ _ _ hc
+    split at hbusy
+    · rename_i hne
+      refine ⟨k, hm, ?_, by simpa using hne, hx⟩
+      intro hown
+      have := dead_owner_marker_not_live ops seg ex0 hdead hlong k (by rw [hst]; exact hm) hown
+      rw [hst, hx] at this
+      cases this
+    · cases hbusy
+  · split at hbusy <;> cases hbusy
+
+open Rendezvous in
+/-- **Quiescence of the marker**: after any history, once no `update_session_timeout` at all has run
+for more than 60 s (traffic stopped; handler futures may have been dropped at any await point), the
+marker is not live and the `PBKDFParamRequest` of any exchange is let in and makes it the owner. -/
+theorem marker_released_at_quiescence (ops seg : List POp) (ex : Nat)
+    (hquiet : ∀ o ∈ seg, o.isUpdate = false) (hlong : elapsed seg ≥ paseTimeoutMs + 1) :
+    (prun pinit (ops ++ seg)).live = false ∧
+    update (prun pinit (ops ++ seg)) ex true =
+      ({ prun pinit (ops ++ seg) with marker := some (Marker.new ex (prun pinit (ops ++ seg)).now) }, .ok) := by
+  have hl : (prun pinit (ops ++ seg)).live = false := by
+    rw [prun_append]
+    have h0 : AllBelow ((prun pinit ops).now + paseTimeoutMs) (prun pinit ops) :=
+      fun k hk => pinv_run ops pinit pinv_init k hk
+    have h1 := allBelow_run _ seg _ hquiet h0
+    have hn := now_run seg (prun pinit ops)
+    unfold PSt.live
+    cases hm : (prun (prun pinit ops) seg).marker with
+    | none => rfl
+    | some k =>
+      have := h1 k hm
+      simp only [Marker.expired, Bool.not_eq_false', decide_eq_true_eq]
+      omega
+  exact ⟨hl, update_new_of_not_live _ ex hl⟩
+
+open Rendezvous in
+/-- after `clear_session_timeout` / `record_pake_failure` there is no marker (one step, any state) -/
+theorem marker_none_after_clear_or_fail (st : PSt) :
+    (pstep st .clear).marker = none ∧ (pstep st .fail).marker = none := ⟨rfl, rfl⟩
+
+open Rendezvous in
+/-- a handler future dropped by the executor leaves the marker behind (this is why the expiry matters) -/
+theorem handler_drop_keeps_marker (st : PSt) (ex : Nat) : pstep st (.handlerDropped ex) = st := rfl
+
+/-- the seeded change C20-b: `Busy` is answered before the age of the marker is looked at -/
+def updateBusyFirst (st : Rendezvous.PSt) (ex : Nat) (new : Bool) : Rendezvous.PSt × Rendezvous.Upd :=
+  match st.marker with
+  | some k =>
+    if k.owner != ex then (st, .busy)
+    else if k.expired st.now then ({ st with marker := none }, .sessionNotFound)
+    else ({ st with marker := some (Rendezvous.Marker.new ex st.now) }, .ok)
+  | none =>
+    if new then ({ st with marker := some (Rendezvous.Marker.new ex st.now) }, .ok)
+    else (st, .sessionNotFound)
+
+/-- non-vacuity, and the witness that the theorems above separate the code from the seeded variant:
+exchange 1 sends `PBKDFParamRequest`, its handler is dropped, 60.001 s pass; exchange 2 is let in by
+`update` and becomes the owner - and is refused for good by the variant. Before the expiry exchange 2
+is answered `Busy` by both; an own `Pake1` after the expiry is answered `SessionNotFound`. -/
+def exPHist : List Rendezvous.POp := [.update 1 true, .handlerDropped 1, .tick 60001]
+def exPSt : Rendezvous.PSt := Rendezvous.prun Rendezvous.pinit exPHist
+
+example :
+    exPSt.marker.map (·.owner) = some 1 ∧ exPSt.live = false ∧
+    (Rendezvous.update exPSt 2 true).2 = .ok ∧
+    (Rendezvous.update exPSt 2 true).1.marker.map (·.owner) = some 2 ∧
+    (updateBusyFirst exPSt 2 true).2 = .busy ∧
+    (Rendezvous.update (Rendezvous.prun Rendezvous.pinit [.update 1 true, .tick 60000]) 2 true).2 = .busy ∧
+    (Rendezvous.update exPSt 1 false).2 = .sessionNotFound ∧
+    (Rendezvous.prun Rendezvous.pinit [.update 1 true, .fail]).marker = none ∧
+    Rendezvous.elapsed exPHist ≥ Rendezvous.paseTimeoutMs + 1 := by
+  decide
 
 end C20
